@@ -40,6 +40,7 @@ def dispatch (st : DState) (fields : List String) : DState × String :=
     let (h', out) := Driver.RPState.stepLine st.rps args
     ({ st with rps := h' }, out)
   | "idt" :: args => (st, (Driver.IdToken.handle args).getD "bad-op")
+  | "heap" :: args => (st, (Driver.FileStore.heapLine args).getD "bad-op")
   | "ie" :: args => (st, (Driver.FileStore.ieLine args).getD "bad-op")
   | "fs" :: args =>
     let (f', out) := Driver.FileStore.stepLine st.fs args
